@@ -12,6 +12,7 @@ require (
 	github.com/cometbft/cometbft v0.38.12
 	github.com/cosmos/cosmos-db v1.0.2
 	github.com/cosmos/cosmos-sdk v0.50.10
+	github.com/ethereum/go-ethereum v1.10.17
 	mods.irisnet.org/modules/mt v0.0.0-20241202072418-ae2ffd0c842e
 	mods.irisnet.org/modules/nft v0.0.0-20241202072418-ae2ffd0c842e
 	pgregory.net/rapid v1.3.0
@@ -63,7 +64,6 @@ require (
 	github.com/dvsekhvalnov/jose2go v1.6.0 // indirect
 	github.com/edsrzf/mmap-go v1.0.0 // indirect
 	github.com/emicklei/dot v1.6.1 // indirect
-	github.com/ethereum/go-ethereum v1.10.17 // indirect
 	github.com/fatih/color v1.15.0 // indirect
 	github.com/felixge/httpsnoop v1.0.4 // indirect
 	github.com/fsnotify/fsnotify v1.7.0 // indirect
